@@ -26,6 +26,7 @@ RULE = ("the derivation TREE is explored explicitly (memoised by node): for seed
 ASSUMPTIONS = ["vf/ref/bip32_ref.py (ecref point maths, own serialisation), validated on BIP32 vectors 1 and 3 in the selftest",
                "int()-style leniency in path components is not examined"]
 OBLIGATIONS = {
+    "mut_x_ge_p": "an extended public key whose x field is x + p of a genuine point",
     "concurrent_calls": "interleavings of two concurrent calls (single-case checks in two threads, cold and after warm-up calls)",
     "long_history": "operations executed in one long history (800 payloads, forward / forward / reverse)",
     "interrupted_calls": "interruption points explored (an earlier call cut short by an asynchronous exception, then ordinary calls)",
@@ -451,6 +452,14 @@ def run_job(job):
             for kv in known:
                 extra.append((kv[1:] + basep[4:5] + basep[4:], "version", "known version shifted left by one byte"))
             extra += [(basep[:-1], "length", "77 bytes"), (basep + b"\x00", "length", "79 bytes"), (b"", "length", "empty")]
+            if basep[45] in (2, 3):
+                # public keys whose x FIELD holds x + p for a genuine point (fits 32 bytes only for tiny x): not a valid encoding
+                from vf.classes import secp_unreduced_sec1
+                for what, buf, _ in secp_unreduced_sec1():
+                    if len(buf) == 33:
+                        extra.append((basep[:45] + buf, "key", "public key with unreduced x: " + what))
+                        acc.ob("mut_x_ge_p")
+                # and the key field as text / other containers is covered by the length mutations above
             for p, f, what in extra:
                 acc.evaluations += 1
                 acc.nontrivial += 1
